@@ -345,3 +345,55 @@ def repo_samples(kind="valid"):
         except Exception:
             pass
     return out
+
+
+def generic_replay(chk, body):
+    """re-runs the recorded case of a replay file on the CURRENT tree and prints what the implementation does with it now
+    (verdict, diagnostics, emitted Python, what the emitted Python prints).  Exit status: 0 = the case was re-run (the
+    verdict on the property is given by running the check itself), 2 = nothing to re-run (a proof / tie is named instead)."""
+    import sweep
+    c = body.get("case") or {}
+    print("property :", body.get("property"))
+    print("detail   :", body.get("detail"))
+    if body.get("theorem"):
+        print("theorem / tie that no longer checks:", body.get("theorem"))
+    if not c or not chk.build_harness():
+        print("no input recorded: see `detail`; re-run ./check %s for the current state" % body.get("property"))
+        return 2
+    kind = c.get("kind")
+    if kind in ("prog", "source", "rename"):
+        text = c.get("text") or (c.get("prelude", "") + c.get("minimal", ""))
+        if kind == "source" and "text" not in c:
+            text = c.get("minimal", "")
+        print("---- input\n" + text)
+        r = sweep.transpile(chk, [text])[0]
+        for a in (0, 1):
+            print("---- annotate=%d: %s" % (a, r[a][0]))
+            if r[a][0] == "ok":
+                print(r[a][1])
+                out = sweep.run_python_msg([r[a][1]])[0]
+                print("---- running it:", out)
+            else:
+                print("\n".join(r[a][1]) if isinstance(r[a][1], list) else r[a][1])
+        return 0
+    if kind in ("proj", "multi"):
+        import c13
+        files = [tuple(f) for f in c.get("files", [])]
+        pre = [tuple(x) for x in c.get("pre", [])]
+        for rel, text in files:
+            print("---- %s\n%s" % (rel, text))
+        res = chk.harness("proj", [("r", c13.payload(files, pre))]).get("r", "MISSING")
+        verdict, msgs, tree = c13.parse_result(res)
+        print("---- verdict:", verdict)
+        for m in msgs:
+            print(m)
+        for pth, cnt in sorted(tree.items()):
+            print("---- output %s\n%s" % (pth, cnt))
+        return 0
+    if kind == "lex":
+        text = c.get("text", "")
+        print("---- input %r" % text)
+        print(chk.harness("lex", [("r", hexs(text))]).get("r"))
+        return 0
+    print("case:", json.dumps(c, ensure_ascii=False)[:4000])
+    return 0
